@@ -23,7 +23,7 @@ LEVEL = "exploration"
 RUNS = {"quick": 60000, "thorough": 1500000}
 WALL = {"quick": 240, "thorough": 1500}
 PARTITIONS = [{"name": "default", "env": {}}]
-FAULT_KINDS = ["reorder", "batch_split", "empty_batch", "nan_entry", "interleave", "outside_value",
+FAULT_KINDS = ["nan_entered_as_value", "reorder", "batch_split", "empty_batch", "nan_entry", "interleave", "outside_value",
                "edge_value", "gap_value", "keep_missed_off", "rebin_between_epochs"]
 RULE = ("one run = one seeded stream (<= 30 entries from an edge-centred pool) delivered to 2-4 replicas over "
         "equal fixed bins (1-3 D, all binning families, dtypes, keep_missed on/off, weights none/int/dyadic/float) "
@@ -73,6 +73,10 @@ def gen_config(rng, bulk=False):
         # in single precision by some deliveries (numpy float32 scalars / arrays) and in double by others
         "vtype": rng.choice(["f64", "f64", "f64", "f32"]),
         "shared_arrays": rng.random() < 0.2,
+        # what happens to NaN entries: "drop" - fill_n drops them (dropna=True), element-wise replicas skip them;
+        # "keep" - they are entered like any value (fill(nan), fill_n(..., dropna=False)): every path must book
+        # them the same way (physt: overflow in 1-D, missed in N-D)
+        "nan_mode": rng.choice(["drop", "drop", "drop", "keep"]),
     }
 
 
@@ -85,7 +89,7 @@ def gen_entries(rng, cfg, n):
         vals = [build.draw_value(rng, p, inside_only=inside_bias and rng.random() < 0.8) for p in pools]
         w = build.draw_weight(rng, cfg["weights"])
         entries.append([vals[0] if len(axes) == 1 else vals, w])
-    if n and rng.random() < 0.25:
+    if n and rng.random() < (0.25 if cfg.get("nan_mode") != "keep" else 0.9):
         for _ in range(rng.randint(1, 3)):
             vals = [build.draw_value(rng, p) for p in pools]
             vals[rng.randrange(len(vals))] = math.nan
@@ -101,10 +105,14 @@ def is_nan_entry(e):
     return isinstance(v, float) and math.isnan(v)
 
 
-def gen_deliveries(rng, mode, idxs, entries, ndim, first_epoch, keep_missed, max_chunk=8):
+def gen_deliveries(rng, mode, idxs, entries, ndim, first_epoch, keep_missed, max_chunk=8, keep_nan=False):
     """Ops (without replica id) that deliver entry indices `idxs` to one replica."""
     conts = ["list", "ndarray", "tuple", "iter"] if ndim == 1 else ["list", "ndarray", "columns"]
+    has_nan = any(is_nan_entry(entries[i]) for i in idxs)
     if mode == "batch":
+        if keep_nan and has_nan:
+            # (construction refuses NaN unless it may drop them: the all-at-once path is one fill_n here)
+            return [{"op": "fill_n", "idx": list(idxs), "cont": rng.choice(conts), "dropna": False}]
         if first_epoch and (ndim == 1 or keep_missed):
             vias = {1: ["h1"], 2: ["h", "h2"], 3: ["h", "h3", "h3cols"]}[ndim]
             return [{"op": "construct", "idx": list(idxs), "via": rng.choice(vias),
@@ -118,14 +126,14 @@ def gen_deliveries(rng, mode, idxs, entries, ndim, first_epoch, keep_missed, max
         single = mode == "single" or (mode == "mixed" and rng.random() < 0.5)
         if single:
             e = entries[order[i]]
-            if not is_nan_entry(e):
+            if keep_nan or not is_nan_entry(e):
                 how = "lshift" if (e[1] is None and rng.random() < 0.3) else "fill"
                 out.append({"op": "fill", "i": order[i], "how": how})
             i += 1
         else:
             k = rng.randint(1, max(1, min(max_chunk, len(order) - i)))
             out.append({"op": "fill_n", "idx": order[i:i + k], "cont": rng.choice(conts),
-                        "dropna": rng.random() < 0.8, "fold": rng.random() < 0.2})
+                        "dropna": (rng.random() < 0.8) and not keep_nan, "fold": rng.random() < 0.2})
             i += k
         if rng.random() < 0.08:
             out.append({"op": "fill_n", "idx": [], "cont": rng.choice(conts)})
@@ -172,7 +180,8 @@ def generate(rng, seed, part):
         idxs = list(range(bounds[ep], bounds[ep + 1]))
         queues = []
         for r, mode in enumerate(modes):
-            dl = gen_deliveries(rng, mode, idxs, entries, ndim, ep == 0, cfg["hist"]["keep_missed"], max_chunk)
+            dl = gen_deliveries(rng, mode, idxs, entries, ndim, ep == 0, cfg["hist"]["keep_missed"], max_chunk,
+                                keep_nan=cfg["nan_mode"] == "keep")
             for d in dl:
                 d["r"] = r
                 if cfg["vtype"] == "f32" and d["op"] in ("fill", "fill_n") and rng.random() < 0.5:
@@ -248,6 +257,7 @@ def execute(plan, ctx):
     entries = plan["entries"]
     exact = cfg["exact"]
     exact_e2 = cfg.get("exact_e2", exact)
+    keep_nan = cfg.get("nan_mode") == "keep"
     # "consecutive" in the sense of the statement: every bin starts exactly where the previous one ends
     # (physt's own is_consecutive() is tolerance-based and calls bins with one-ulp gaps consecutive)
     def exactly_consecutive(spec):
@@ -289,6 +299,9 @@ def execute(plan, ctx):
     def classify(v):
         """Which pool class a delivered value belongs to (for fault accounting only)."""
         vals = v if isinstance(v, list) else [v]
+        if any(isinstance(x, float) and math.isnan(x) for x in vals):
+            ctx.fault("nan_entered_as_value")
+            return
         for ax, x in enumerate(vals):
             b = build.spec_bins(hs["axes"][ax])
             if x < b[0, 0] or x > b[-1, 1]:
@@ -408,7 +421,7 @@ def execute(plan, ctx):
         h = R.h
         if kind == "fill":
             i = op["i"]
-            if i >= len(entries) or is_nan_entry(entries[i]):
+            if i >= len(entries) or (is_nan_entry(entries[i]) and not keep_nan):
                 continue
             v, w = entries[i]
             val = v if ndim == 1 else list(v)
@@ -503,8 +516,8 @@ def execute(plan, ctx):
                     data = [np.float32(x) for x in data]
                 ctx.probe("float32_value_delivery")
             n_nan = sum(1 for i in idxs if is_nan_entry(entries[i]))
-            if op.get("dropna") is False and n_nan == 0:
-                kw["dropna"] = False  # valid: nothing to drop
+            if op.get("dropna") is False and (n_nan == 0 or keep_nan):
+                kw["dropna"] = False  # valid: nothing to drop, or NaN is entered as a value (keep mode)
             if ndim == 1 and op.get("fold") and len(idxs) >= 4 and len(idxs) % 2 == 0 and cont in ("ndarray", "list"):
                 # a 1-D histogram accepts input of any shape (documented: it is flattened); weights share the shape
                 data = np.asarray(data, dtype=float).reshape(2, -1)
@@ -532,7 +545,7 @@ def execute(plan, ctx):
                               f"{n_nan} NaN) raised {ret!r}", stop=False)
                 continue
             for i in idxs:
-                if not is_nan_entry(entries[i]):
+                if not is_nan_entry(entries[i]) or kw.get("dropna") is False:
                     R.bag.append(i)
                     classify(entries[i][0])
             if not idxs:
